@@ -8,6 +8,14 @@ if [ "$1" = "--remove" ]; then
   rm -rf "$2"
   exit 0
 fi
+if [ "$1" = "--sync" ]; then
+  D="$2"
+  rsync -a --delete --exclude .git --exclude .work --exclude .cache --exclude 'bin/orbcheck*' --exclude evidence --exclude replays --exclude seeded --exclude .repo_dir /verif/ "$D/verif/"
+  sed -i "s|/repo|$D/repo|g" "$D/verif/go.work" "$D/verif/harness/go.mod"
+  git -C "$D/repo" checkout -q --detach "$(git -C /repo rev-parse HEAD)"
+  echo "lab synced: $D"
+  exit 0
+fi
 D="$1"
 mkdir -p "$D"
 git -C /repo worktree add -q --detach "$D/repo" HEAD
